@@ -275,3 +275,38 @@ Proof.
   - destruct H0 as [H0 | H0]; [exact H0 |]. rewrite <- H0, sin_0 in Hpos. lra.
   - destruct H1 as [H1 | H1]; [exact H1 |]. rewrite H1, sin_PI in Hpos. lra.
 Qed.
+
+(* ---- values on the eight principal directions (the branch structure agrees with sympy.atan2 / C atan2) -------- *)
+
+Lemma atan2_east : atan2 0 1 = 0.
+Proof. rewrite atan2_xpos by lra. replace (0 / 1) with 0 by field. apply atan_0. Qed.
+
+Lemma atan2_north_east : atan2 1 1 = PI / 4.
+Proof. rewrite atan2_xpos by lra. replace (1 / 1) with 1 by field. apply atan_1. Qed.
+
+Lemma atan2_north : atan2 1 0 = PI / 2.
+Proof. apply atan2_x0_ypos. lra. Qed.
+
+Lemma atan2_north_west : atan2 1 (-1) = 3 * PI / 4.
+Proof.
+  rewrite atan2_xneg_ynonneg by lra. replace (1 / -1) with (Ropp 1) by field.
+  rewrite atan_opp, atan_1. field.
+Qed.
+
+Lemma atan2_west : atan2 0 (-1) = PI.
+Proof.
+  rewrite atan2_xneg_ynonneg by lra. replace (0 / -1) with 0 by field. rewrite atan_0. ring.
+Qed.
+
+Lemma atan2_south_west : atan2 (-1) (-1) = - (3 * PI / 4).
+Proof.
+  rewrite atan2_xneg_yneg by lra. replace (-1 / -1) with 1 by field. rewrite atan_1. field.
+Qed.
+
+Lemma atan2_south : atan2 (-1) 0 = - (PI / 2).
+Proof. apply atan2_x0_yneg. lra. Qed.
+
+Lemma atan2_south_east : atan2 (-1) 1 = - (PI / 4).
+Proof.
+  rewrite atan2_xpos by lra. replace (-1 / 1) with (Ropp 1) by field. rewrite atan_opp, atan_1. reflexivity.
+Qed.
